@@ -205,6 +205,9 @@ func VerifC16_v1join_stop() {
 			}
 		}
 	}
+	vLassoBound(40)
+	vExpect("BLOCKED", "fail:C16: after Stop/cancel the join goroutine blocks for ever (output full / release never sent / producers idle)")
+	vExpect("LASSO", "fail:C16: after Stop/cancel the join goroutine spins for ever")
 	vOnBlock(d.output, env)
 	vOnBlock(d.opts.Input, env)
 	if e.released != nil {
